@@ -132,6 +132,11 @@ Theorem C17_item_inplace_div_spares_siblings : forall xs i k xs',
 Proof. exact item_div_spares_siblings_lemma. Qed.
 Print Assumptions C17_item_inplace_div_spares_siblings.
 
+(* reduce() combines members with a common reactant into a NEW set and leaves the receiver's conversions alone *)
+Theorem C17_reduce_spares_receiver : forall xs, sstep xs SReduce = Ok xs.
+Proof. reflexivity. Qed.
+Print Assumptions C17_reduce_spares_receiver.
+
 (* non-vacuity: the hypotheses of the algebraic theorems are met by a concrete pair *)
 Definition exA := mkrxn [-1; 1#2; 0; 0] 0 (1#2) false [].
 Definition exB := mkrxn [-1; 0; 2; 0] 0 (1#4) false [].
